@@ -1,5 +1,6 @@
 import GomlVerif.Props.C19
 import GomlVerif.Gen.Dispatch
+import GomlVerif.Model.MethodEnv
 /-!
 # C17 — all call forms of a method agree
 
@@ -365,5 +366,129 @@ example :
     pathFormLookup E "Lib::Cell".toList (some cellInt) "describe".toList = dotFormLookup E cellInt "describe".toList ∧
     pathFormLookup E "Cell".toList (some cellInt) "describe".toList ≠ dotFormLookup E cellInt "describe".toList := by
   decide
+
+/-! ## the two inherent call forms across package boundaries (`Model/MethodEnv.lean`)
+
+In a multi-package program every site chooses WHICH package's impl table it asks.  The dot form asks
+the table of the package that defines the receiver's type (`env_for_receiver_ty`); the path form
+resolves the written path (`resolve_type_name`) and must put both the guard and the lookups to the
+table that comes with the resolved name — not to the table of the package being checked. -/
+
+/-- with guard and lookups on one table the guarded lookup is `pathFormLookup` -/
+theorem pathFormLookupGuard_self (E : InhEnv) (base : Name) (a : Option Ty) (m : Name) :
+    pathFormLookupGuard E E base a m = pathFormLookup E base a m := rfl
+
+/-- a name that resolution leaves unchanged (a qualified name of a dependency or of the package
+itself, any unqualified name inside `Main`) resolves to the same environment again -/
+theorem resolve_env_idem_of_fixed (G : PkgInhEnvs) (w : Name) (h : (resolveTypeName G w).1 = w) :
+    (resolveTypeName G (resolveTypeName G w).1).2 = (resolveTypeName G w).2 := by rw [h]
+
+/-- `env_for_receiver_ty` of a nominal receiver is the environment its constructor name resolves to -/
+theorem envForReceiverTy_nominal (G : PkgInhEnvs) (b : Name) (args : List Ty) :
+    envForReceiverTy G (.tstruct b) = (resolveTypeName G b).2 ∧
+    envForReceiverTy G (.tenum b) = (resolveTypeName G b).2 ∧
+    envForReceiverTy G (.tapp (.tstruct b) args) = (resolveTypeName G b).2 ∧
+    envForReceiverTy G (.tapp (.tenum b) args) = (resolveTypeName G b).2 := by
+  simp [envForReceiverTy]
+
+/-- **both inherent call forms agree across package boundaries**: for every package environment,
+written type path, method and receiver whose type the dot form looks up in the environment the
+written path resolves to (`henv`; by `envForReceiverTy_nominal` and `resolve_env_idem_of_fixed` that
+is every receiver `Base[..]` / `Base` of the named type), whenever an impl of a single instantiation
+defines the method, the path form finds what the dot form finds. -/
+theorem inherent_forms_agree_across_packages (G : PkgInhEnvs) (written m : Name) (t : Ty) (f : InhFound)
+    (hb : constrName t = some (resolveTypeName G written).1)
+    (henv : envForReceiverTy G t = (resolveTypeName G written).2)
+    (hov : instantiationImplDefines (resolveTypeName G written).2 (resolveTypeName G written).1 m = true)
+    (hdot : dotFormLookupPkg G t m = some f) :
+    pathFormLookupPkg G written (some t) m = some f := by
+  unfold dotFormLookupPkg at hdot
+  rw [henv] at hdot
+  show pathFormLookupGuard (resolveTypeName G written).2 (resolveTypeName G written).2 (resolveTypeName G written).1 (some t) m = some f
+  rw [pathFormLookupGuard_self]
+  exact inherent_overlap_forms_agree _ _ _ _ _ hb hov hdot
+
+/-- the guard decides: put to a table that does not hold the impls of the type (the table of the
+package being CHECKED, for a type of another package) it is false, and the path form degrades to the
+lookup under the bare constructor — the generic impl, or nothing — whatever the defining package holds -/
+theorem path_form_guard_on_other_table (Eg E : InhEnv) (base m : Name) (a : Option Ty)
+    (h : instantiationImplDefines Eg base m = false) :
+    pathFormLookupGuard Eg E base a m = lookupInherentMethod E (.tstruct base) m := by
+  simp [pathFormLookupGuard, h]
+
+/-- non-vacuity, and the seeded change `C17-path-form-current-package-env`: package `Main` calls
+methods of `Lib::Cell` (both impls live in `Lib`).  Dot and path form agree on the instantiation's
+impl; with the guard read off `Main`'s own (empty) table the path form runs the generic impl and does
+not find a method that only the instantiation's impl defines. -/
+example :
+    let cellInt : Ty := .tapp (.tstruct "Lib::Cell".toList) [.prim .int32]
+    let E : InhEnv := { exact := [(cellInt, ["describe".toList, "only".toList])], constr := [("Lib::Cell".toList, ["describe".toList])] }
+    let G : PkgInhEnvs := { package := "Main".toList, current := { exact := [], constr := [] }, deps := [("Lib".toList, E)] }
+    dotFormLookupPkg G cellInt "describe".toList = some (.exact "Lib::Cell[int32]".toList) ∧
+    pathFormLookupPkg G "Lib::Cell".toList (some cellInt) "describe".toList = some (.exact "Lib::Cell[int32]".toList) ∧
+    pathFormLookupPkg G "Lib::Cell".toList (some cellInt) "only".toList = dotFormLookupPkg G cellInt "only".toList ∧
+    dotFormLookupPkg G cellInt "only".toList = some (.exact "Lib::Cell[int32]".toList) ∧
+    pathFormLookupGuard G.current E "Lib::Cell".toList (some cellInt) "describe".toList = some (.constr "Lib::Cell".toList) ∧
+    pathFormLookupGuard G.current E "Lib::Cell".toList (some cellInt) "only".toList = none := by
+  decide
+
+/-- the same from inside a library: package `Lib` (which also has a `Cell` of its own, with other
+impls) calls methods of `Base::Cell`; the unqualified `Cell` is `Lib::Cell` and goes to `Lib`'s table -/
+example :
+    let baseCell : Ty := .tapp (.tstruct "Base::Cell".toList) [.prim .int32]
+    let libCell : Ty := .tapp (.tstruct "Lib::Cell".toList) [.prim .int32]
+    let EB : InhEnv := { exact := [(baseCell, ["describe".toList])], constr := [("Base::Cell".toList, ["describe".toList])] }
+    let EL : InhEnv := { exact := [], constr := [("Lib::Cell".toList, ["describe".toList])] }
+    let G : PkgInhEnvs := { package := "Lib".toList, current := EL, deps := [("Base".toList, EB)] }
+    pathFormLookupPkg G "Base::Cell".toList (some baseCell) "describe".toList = some (.exact "Base::Cell[int32]".toList) ∧
+    dotFormLookupPkg G baseCell "describe".toList = some (.exact "Base::Cell[int32]".toList) ∧
+    (resolveTypeName G "Cell".toList).1 = "Lib::Cell".toList ∧
+    pathFormLookupPkg G "Cell".toList (some libCell) "describe".toList = some (.constr "Lib::Cell".toList) ∧
+    dotFormLookupPkg G libCell "describe".toList = some (.constr "Lib::Cell".toList) := by
+  decide
+
+/-- `split_once("::")` of `p::w` for a package name without a colon is `(p, w)` -/
+theorem splitOnceColons_append (p w : Name) (hp : colonFree p = true) :
+    splitOnceColons (p ++ ':' :: ':' :: w) = some (p, w) := by
+  induction p with
+  | nil => simp [splitOnceColons]
+  | cons c p ih =>
+    simp only [colonFree, List.all_cons, Bool.and_eq_true, bne_iff_ne, ne_eq] at hp
+    obtain ⟨hc, hp'⟩ := hp
+    have ih' := ih (by simpa [colonFree] using hp')
+    rw [List.cons_append, splitOnceColons]
+    · simp [ih']
+    · intro tail h1; exact absurd h1 hc
+
+/-- inside a library package `P` an unqualified name `w` resolves to `P::w` in `P`'s own environment,
+and so does `P::w` itself (the name a receiver's type carries) -/
+theorem resolve_unqualified_in_library (G : PkgInhEnvs) (w : Name) (hp : colonFree G.package = true)
+    (hm : G.package ≠ pkgMain) (hb : G.package ≠ pkgBuiltin) (hs : w ≠ ['S', 'e', 'l', 'f'])
+    (hw : splitOnceColons w = none) :
+    resolveTypeName G w = (G.package ++ [':', ':'] ++ w, G.current) ∧
+    resolveTypeName G (G.package ++ [':', ':'] ++ w) = (G.package ++ [':', ':'] ++ w, G.current) := by
+  constructor
+  · simp [resolveTypeName, hs, hw, hm, hb]
+  · have hne : (G.package ++ [':', ':'] ++ w == ['S', 'e', 'l', 'f']) = false := by
+      apply beq_false_of_ne
+      intro h
+      have : ':' ∈ G.package ++ [':', ':'] ++ w := by simp
+      rw [h] at this
+      simp at this
+    have hsp : splitOnceColons (G.package ++ ':' :: ':' :: w) = some (G.package, w) :=
+      splitOnceColons_append G.package w hp
+    have hne' : ¬ (G.package ++ ':' :: ':' :: w = ['S', 'e', 'l', 'f']) := by simpa using hne
+    simp [resolveTypeName, hne', hsp, hm, hb]
+
+/-- hence the hypothesis `henv` of `inherent_forms_agree_across_packages` also holds for a type written
+unqualified inside a library package (the case of seeded change `C17-path-form-written-name`) -/
+theorem resolve_env_idem_unqualified_in_library (G : PkgInhEnvs) (w : Name) (hp : colonFree G.package = true)
+    (hm : G.package ≠ pkgMain) (hb : G.package ≠ pkgBuiltin) (hs : w ≠ ['S', 'e', 'l', 'f'])
+    (hw : splitOnceColons w = none) :
+    (resolveTypeName G (resolveTypeName G w).1).2 = (resolveTypeName G w).2 := by
+  obtain ⟨h1, h2⟩ := resolve_unqualified_in_library G w hp hm hb hs hw
+  rw [h1]
+  show (resolveTypeName G (G.package ++ [':', ':'] ++ w)).2 = G.current
+  rw [h2]
 
 end Goml.Mangle
